@@ -8,8 +8,8 @@ import (
 	"go/ast"
 	"go/token"
 	"go/types"
-	"sort"
-	"strings"
+
+	"golang.org/x/tools/go/cfg"
 
 	"rscheck/cfgq"
 	"rscheck/core"
@@ -72,7 +72,14 @@ func mutexCall(info *types.Info, n ast.Node, typ, mu, method string, deferred bo
 		calls = cfgq.ExecCalls(n)
 	}
 	for _, call := range calls {
-		sel, isSel := ast.Unparen(call.Fun).(*ast.SelectorExpr)
+		fun := ast.Unparen(call.Fun)
+		if id, isId := fun.(*ast.Ident); isId {
+			// `unlock := p.mu.Unlock; defer unlock()`: a local bound once to the method value
+			if d := pat.DefOf(info, id); d != nil {
+				fun = ast.Unparen(d)
+			}
+		}
+		sel, isSel := fun.(*ast.SelectorExpr)
 		if !isSel || sel.Sel.Name != method {
 			continue
 		}
@@ -131,92 +138,445 @@ func identOf(e ast.Expr) *ast.Ident {
 	return id
 }
 
-// GuardTable checks that every access to one of the guarded fields of struct
-// typ in package pkgPath happens with base.<mu> held on all paths (Lock
-// executed, no explicit Unlock since), and that the body releases the lock
-// (deferred Unlock, or an Unlock on every path to a normal exit).
-// It returns the number of accesses examined.
-func GuardTable(c *core.Ctx, rule, pkgPath, typ, mu string, guarded []string) int {
+// LockState is the result of the lock analysis of one package for one mutex
+// field: for every body, the cfg nodes at which the lock is held on all paths.
+type LockState struct {
+	Bodies []Body
+	Held   []map[ast.Node]bool // parallel to Bodies
+	Entry  []bool              // the body starts with the lock held (helper / closure only ever called under the lock)
+}
+
+// HeldAt reports whether the lock is held at the cfg node of body i that
+// contains n.
+func (ls *LockState) HeldAt(i int, n ast.Node) bool {
+	if pt, ok := ls.Bodies[i].G.Find(n); ok && pt.Node() != nil {
+		return ls.Held[i][pt.Node()]
+	}
+	return false
+}
+
+// LockHeld computes where <typ>.<mu> is held in package pkgPath. A declared
+// helper that is only ever *called* (never used as a value, never started with
+// go) from sites where the lock is held starts with the lock held; so does a
+// function literal that is invoked in place or bound to a local variable whose
+// only uses are calls at such sites. Exported functions and functions without
+// a call site never qualify. This is a fixpoint over the package's call sites.
+func LockHeld(c *core.Ctx, pkgPath, typ, mu string) *LockState {
+	key := "ring.lockheld." + pkgPath + "." + typ + "." + mu
+	if v, ok := c.Program.Shared[key]; ok {
+		return v.(*LockState)
+	}
 	pk := c.Pkg(pkgPath)
-	if pk == nil {
-		c.Undecidedf(rule, pkgPath, token.NoPos, "package %s not loaded", pkgPath)
-		return 0
-	}
 	info := pk.TypesInfo
-	isGuarded := map[string]bool{}
-	for _, f := range guarded {
-		isGuarded[f] = true
-	}
-	count := 0
 	bodies := Bodies(c, pkgPath)
-	lockP := func(n ast.Node) bool { _, ok := mutexCall(info, n, typ, mu, "Lock", false); return ok }
-	unlockP := func(n ast.Node) bool { _, ok := mutexCall(info, n, typ, mu, "Unlock", false); return ok }
-	// helpers that are only ever called with the lock held start with it held
-	// (fixpoint over the package's call sites; exported functions, functions
-	// used as values and functions without a call site never qualify)
-	declOf := map[types.Object]*Body{}
+	lockP, unlockP, deferredRel := lockPreds(c, pkgPath, typ, mu)
+	declOf := map[types.Object]int{}
+	litOf := map[*ast.FuncLit]int{}
 	for i := range bodies {
 		if bodies[i].Lit == nil {
 			if o := info.Defs[bodies[i].Decl.Name]; o != nil {
-				declOf[o] = &bodies[i]
+				declOf[o] = i
 			}
+		} else {
+			litOf[bodies[i].Lit] = i
 		}
 	}
-	entryHeld := map[*ast.FuncDecl]bool{}
-	for o, b := range declOf {
+	// how literals are used: invoked in place, or bound to a local whose uses are all calls
+	litVar := map[types.Object][]int{} // local variable or parameter -> literal bodies it may hold
+	litBad := map[int]bool{}
+	argLit := map[*ast.FuncLit]bool{} // literals passed as arguments to package functions
+	for i := range bodies {
+		var root ast.Node = bodies[i].Decl.Body
+		if bodies[i].Lit != nil {
+			root = bodies[i].Lit.Body
+		}
+		core.Inspect(root, func(n ast.Node) bool {
+			switch x := n.(type) {
+			case *ast.AssignStmt:
+				if len(x.Lhs) == len(x.Rhs) {
+					for j, r := range x.Rhs {
+						if fl, ok := ast.Unparen(r).(*ast.FuncLit); ok {
+							if id, ok := x.Lhs[j].(*ast.Ident); ok {
+								if o := core.ObjOf(info, id); o != nil {
+									litVar[o] = append(litVar[o], litOf[fl])
+								}
+							}
+						}
+					}
+				}
+			case *ast.ValueSpec:
+				if len(x.Names) == len(x.Values) {
+					for j, r := range x.Values {
+						if fl, ok := ast.Unparen(r).(*ast.FuncLit); ok {
+							if o := info.Defs[x.Names[j]]; o != nil {
+								litVar[o] = append(litVar[o], litOf[fl])
+							}
+						}
+					}
+				}
+			case *ast.CallExpr:
+				// a literal passed to a declared function of the package is bound to that parameter
+				if f := core.CalleeFunc(info, x); f != nil {
+					if j, ok := declOf[f.Origin()]; ok && !x.Ellipsis.IsValid() {
+						var params []types.Object
+						for _, fl := range bodies[j].Decl.Type.Params.List {
+							for _, nm := range fl.Names {
+								params = append(params, info.Defs[nm])
+							}
+						}
+						for k, a := range x.Args {
+							if fl, ok := ast.Unparen(a).(*ast.FuncLit); ok && k < len(params) && params[k] != nil {
+								litVar[params[k]] = append(litVar[params[k]], litOf[fl])
+								argLit[fl] = true
+							}
+						}
+					}
+				}
+			}
+			return true
+		})
+	}
+	entry := make([]bool, len(bodies))
+	for o, i := range declOf {
 		if !o.Exported() {
-			entryHeld[b.Decl] = true
+			entry[i] = true
 		}
 	}
+	for i := range bodies {
+		if bodies[i].Lit != nil {
+			entry[i] = true
+		}
+	}
+	held := make([]map[ast.Node]bool, len(bodies))
 	for changed := true; changed; {
 		changed = false
-		sites := map[*ast.FuncDecl]int{}
-		bad := map[*ast.FuncDecl]bool{}
+		sites := map[int]int{}
+		bad := map[int]bool{}
+		for i := range litBad {
+			bad[i] = true
+		}
 		for i := range bodies {
 			b := &bodies[i]
-			held := b.G.HeldFrom(b.Lit == nil && entryHeld[b.Decl], lockP, unlockP)
+			held[i] = heldFrom(b.G, entry[i], lockP, unlockP)
 			for _, blk := range b.G.CFG.Blocks {
 				if !blk.Live {
 					continue
 				}
 				for _, n := range blk.Nodes {
+					h := held[i][n]
+					// calls executed by this node
+					calledLits := map[*ast.FuncLit]bool{}
+					calledVars := map[*ast.Ident]bool{}
 					for _, call := range cfgq.ExecCalls(n) {
+						fun := ast.Unparen(call.Fun)
+
+						if fl, ok := fun.(*ast.FuncLit); ok {
+							calledLits[fl] = true
+							if j, ok := litOf[fl]; ok {
+								sites[j]++
+								if !h {
+									bad[j] = true
+								}
+							}
+							continue
+						}
+						if id, ok := fun.(*ast.Ident); ok {
+							if js, ok := litVar[core.ObjOf(info, id)]; ok {
+								calledVars[id] = true
+								for _, j := range js {
+									sites[j]++
+									if !h {
+										bad[j] = true
+									}
+								}
+								continue
+							}
+						}
 						if f := core.CalleeFunc(info, call); f != nil {
-							if tb, ok := declOf[f.Origin()]; ok {
-								sites[tb.Decl]++
-								if !held[n] {
-									bad[tb.Decl] = true
+							if j, ok := declOf[f.Origin()]; ok {
+								sites[j]++
+								if !h {
+									bad[j] = true
 								}
 							}
 						}
 					}
-					// a go/defer of the helper, or its use as a value, is not a held call site
+					// go / defer of a helper or literal, and any other mention, is not a held call site
+					var skipCall *ast.CallExpr
 					switch x := n.(type) {
 					case *ast.GoStmt:
-						if f := core.CalleeFunc(info, x.Call); f != nil {
-							if tb, ok := declOf[f.Origin()]; ok {
-								bad[tb.Decl] = true
+						skipCall = x.Call
+					case *ast.DeferStmt:
+						skipCall = x.Call
+					}
+					if skipCall != nil {
+						// a deferred call runs at exit: the lock is still held there when it is
+						// held at the defer statement, is released only by a deferred Unlock
+						// registered earlier (it runs later), and never explicitly
+						_, isGo := n.(*ast.GoStmt)
+						hd := false
+						if !isGo && h {
+							hd = deferredUnderLock(b.G, n, unlockP, deferredRel)
+						}
+						site := func(j int) {
+							sites[j]++
+							if !hd {
+								bad[j] = true
+							}
+						}
+						fun := ast.Unparen(skipCall.Fun)
+						if fl, ok := fun.(*ast.FuncLit); ok {
+							calledLits[fl] = true
+							site(litOf[fl])
+						} else if id, ok := fun.(*ast.Ident); ok {
+							if js, ok := litVar[core.ObjOf(info, id)]; ok {
+								calledVars[id] = true
+								for _, j := range js {
+									site(j)
+								}
+							}
+						}
+						if f := core.CalleeFunc(info, skipCall); f != nil {
+							if j, ok := declOf[f.Origin()]; ok {
+								if !isGo {
+									site(j)
+								}
+								if isGo {
+									bad[j] = true
+								}
 							}
 						}
 					}
+					core.Inspect(n, func(m ast.Node) bool {
+						switch x := m.(type) {
+						case *ast.FuncLit:
+							if m != n && !calledLits[x] {
+								// a literal that is neither invoked in place nor bound by this node
+								bound := argLit[x]
+								switch st := n.(type) {
+								case *ast.AssignStmt:
+									for _, r := range st.Rhs {
+										if ast.Unparen(r) == ast.Expr(x) {
+											bound = true
+										}
+									}
+								case *ast.ValueSpec:
+									for _, r := range st.Values {
+										if ast.Unparen(r) == ast.Expr(x) {
+											bound = true
+										}
+									}
+								}
+								if !bound {
+									if j, ok := litOf[x]; ok {
+										bad[j] = true
+									}
+								}
+							}
+						case *ast.Ident:
+							if js, ok := litVar[core.ObjOf(info, x)]; ok && !calledVars[x] && info.Defs[x] == nil {
+								// the variable is used other than as the callee (passed on, re-assigned ...)
+								isLhs := false
+								if as, ok := n.(*ast.AssignStmt); ok {
+									for _, l := range as.Lhs {
+										if l == ast.Expr(x) {
+											isLhs = true
+										}
+									}
+								}
+								if !isLhs {
+									for _, j := range js {
+										bad[j] = true
+									}
+								}
+							}
+						}
+						return true
+					})
 				}
 			}
 		}
-		for d := range entryHeld {
-			if entryHeld[d] && (bad[d] || sites[d] == 0) {
-				entryHeld[d] = false
+		// declared helpers used as values anywhere in the package
+		for i := range bodies {
+			var root ast.Node = bodies[i].Decl.Body
+			if bodies[i].Lit != nil {
+				continue
+			}
+			callFuns := map[ast.Expr]bool{}
+			ast.Inspect(root, func(m ast.Node) bool {
+				if call, ok := m.(*ast.CallExpr); ok {
+					callFuns[ast.Unparen(call.Fun)] = true
+				}
+				return true
+			})
+			ast.Inspect(root, func(m ast.Node) bool {
+				switch x := m.(type) {
+				case *ast.Ident:
+					if f, ok := info.Uses[x].(*types.Func); ok && !callFuns[ast.Expr(x)] {
+						if j, ok := declOf[f.Origin()]; ok {
+							// selector method values are handled below; a bare identifier not in call position is a value use
+							bad[j] = bad[j] || !isSelOfCall(root, x, callFuns)
+						}
+					}
+				}
+				return true
+			})
+		}
+		for i := range entry {
+			if entry[i] && (bad[i] || sites[i] == 0) {
+				entry[i] = false
 				changed = true
 			}
 		}
 	}
+	for i := range bodies {
+		held[i] = heldFrom(bodies[i].G, entry[i], lockP, unlockP)
+	}
+	ls := &LockState{Bodies: bodies, Held: held, Entry: entry}
+	c.Program.Shared[key] = ls
+	return ls
+}
+
+// isSelOfCall: identifier id is the Sel of a selector expression that is the
+// function part of a call (x.m(...)).
+func isSelOfCall(root ast.Node, id *ast.Ident, callFuns map[ast.Expr]bool) bool {
+	found := false
+	ast.Inspect(root, func(m ast.Node) bool {
+		if sel, ok := m.(*ast.SelectorExpr); ok && sel.Sel == id && callFuns[ast.Expr(sel)] {
+			found = true
+		}
+		return !found
+	})
+	return found
+}
+
+// GuardTable checks that every access to one of the guarded fields of struct
+// typ in package pkgPath happens with base.<mu> held on all paths (Lock
+// executed, no explicit Unlock since), and that the body releases the lock
+// (deferred Unlock, or an Unlock on every path to a normal exit).
+// It returns the number of accesses examined and the count per field (a rule
+// set that finds no access to one of the fields must not pass vacuously; the
+// total is not compared with a number frozen from today's tree, because
+// moving two accesses into a shared helper legitimately lowers it).
+func GuardTable(c *core.Ctx, rule, pkgPath, typ, mu string, guarded []string) (int, map[string]int) {
+	pk := c.Pkg(pkgPath)
+	if pk == nil {
+		c.Undecidedf(rule, pkgPath, token.NoPos, "package %s not loaded", pkgPath)
+		return 0, nil
+	}
+	info := pk.TypesInfo
+	seenField := map[string]int{}
+	isGuarded := map[string]bool{}
+	for _, f := range guarded {
+		isGuarded[f] = true
+	}
+	count := 0
+	ls := LockHeld(c, pkgPath, typ, mu)
+	bodies := ls.Bodies
+	lockP, unlockP, deferredRelease := lockPreds(c, pkgPath, typ, mu)
+	pc := CallsIn(c, pkgPath)
+	// `&x.f` handed to a declared function of the package whose parameter is only
+	// ever dereferenced: the accesses are the dereferences in that function
+	// (checked against its lock state), not the address computation.
+	type access struct {
+		sel   *ast.SelectorExpr
+		node  ast.Node
+		pos   token.Pos
+		field string
+	}
+	exempt := map[*ast.SelectorExpr]bool{}
+	derefs := map[*ast.FuncDecl][]access{}
+	declBody := map[types.Object]*ast.FuncDecl{}
 	for _, b := range bodies {
+		if b.Lit == nil {
+			if o := info.Defs[b.Decl.Name]; o != nil {
+				declBody[o] = b.Decl
+			}
+		}
+	}
+	for _, b := range bodies {
+		if b.Lit != nil {
+			continue
+		}
+		ast.Inspect(b.Decl.Body, func(n ast.Node) bool {
+			call, ok := n.(*ast.CallExpr)
+			if !ok || call.Ellipsis.IsValid() {
+				return true
+			}
+			f := core.CalleeFunc(info, call)
+			if f == nil {
+				return true
+			}
+			fd := declBody[f.Origin()]
+			if fd == nil {
+				return true
+			}
+			var params []types.Object
+			for _, fl := range fd.Type.Params.List {
+				for _, nm := range fl.Names {
+					params = append(params, info.Defs[nm])
+				}
+			}
+			for k, a := range call.Args {
+				u, ok := ast.Unparen(a).(*ast.UnaryExpr)
+				if !ok || u.Op != token.AND || k >= len(params) || params[k] == nil {
+					continue
+				}
+				se, ok := ast.Unparen(u.X).(*ast.SelectorExpr)
+				if !ok || !isGuarded[se.Sel.Name] || !core.IsFieldNamed(info, se, typ, se.Sel.Name) {
+					continue
+				}
+				// every use of the parameter is `*param`, outside nested literals
+				okUse := true
+				var stars []*ast.StarExpr
+				starOf := map[*ast.Ident]*ast.StarExpr{}
+				ast.Inspect(fd.Body, func(m ast.Node) bool {
+					if st, ok := m.(*ast.StarExpr); ok {
+						if id, ok := ast.Unparen(st.X).(*ast.Ident); ok {
+							starOf[id] = st
+						}
+					}
+					return true
+				})
+				inLit := 0
+				var walk func(m ast.Node) bool
+				walk = func(m ast.Node) bool {
+					switch x := m.(type) {
+					case *ast.FuncLit:
+						inLit++
+						ast.Inspect(x.Body, walk)
+						inLit--
+						return false
+					case *ast.Ident:
+						if info.Uses[x] == params[k] {
+							if st := starOf[x]; st != nil && inLit == 0 {
+								stars = append(stars, st)
+							} else {
+								okUse = false
+							}
+						}
+					}
+					return true
+				}
+				ast.Inspect(fd.Body, walk)
+				if !okUse || len(stars) == 0 {
+					continue
+				}
+				exempt[se] = true
+				for _, st := range stars {
+					derefs[fd] = append(derefs[fd], access{pos: st.Pos(), field: se.Sel.Name, node: st})
+				}
+			}
+			return true
+		})
+	}
+	for bi, b := range bodies {
 		var root ast.Node = b.Decl.Body
 		if b.Lit != nil {
 			root = b.Lit
 		}
-		type access struct {
-			sel  *ast.SelectorExpr
-			node ast.Node
+		if fo, _ := info.Defs[b.Decl.Name].(*types.Func); fo != nil && !pc.Referenced(fo) {
+			continue // dead code: an unexported function nothing refers to cannot touch the state
 		}
 		var accs []access
 		for _, blk := range b.G.CFG.Blocks {
@@ -229,60 +589,91 @@ func GuardTable(c *core.Ctx, rule, pkgPath, typ, mu string, guarded []string) in
 					if !ok || !isGuarded[se.Sel.Name] {
 						return true
 					}
-					if core.IsFieldNamed(info, se, typ, se.Sel.Name) {
-						accs = append(accs, access{se, n})
+					if core.IsFieldNamed(info, se, typ, se.Sel.Name) && !exempt[se] {
+						accs = append(accs, access{sel: se, node: n, pos: se.Pos(), field: se.Sel.Name})
 					}
 					return true
 				})
 			}
 		}
+		if b.Lit == nil {
+			seenD := map[string]bool{}
+			for _, d := range derefs[b.Decl] {
+				k := fmt.Sprint(d.pos, d.field)
+				if seenD[k] {
+					continue
+				}
+				seenD[k] = true
+				if pt, ok := b.G.Find(d.node); ok && pt.Node() != nil {
+					accs = append(accs, access{node: pt.Node(), pos: d.pos, field: d.field})
+				}
+			}
+		}
 		if len(accs) == 0 {
 			continue
 		}
-		held := b.G.HeldFrom(b.Lit == nil && entryHeld[b.Decl], lockP, unlockP)
+		held := ls.Held[bi]
 		perField := map[string]int{}
 		for _, a := range accs {
-			if localFresh(info, root, a.sel.X) {
+			if a.sel != nil && localFresh(info, root, a.sel.X) {
 				continue // constructor: object not shared yet
 			}
 			count++
-			perField[a.sel.Sel.Name]++
-			key := fmt.Sprintf("%s/%s#%d", b.Name, a.sel.Sel.Name, perField[a.sel.Sel.Name])
-			c.Check(rule, key, a.sel.Pos(), held[a.node],
-				fmt.Sprintf("access to %s.%s must execute with %s.%s held on every path (Lock dominates, no explicit Unlock in between; a helper counts as locked only if every call site holds the lock)", typ, a.sel.Sel.Name, typ, mu))
+			seenField[a.field]++
+			perField[a.field]++
+			key := fmt.Sprintf("%s/%s#%d", b.Name, a.field, perField[a.field])
+			c.Check(rule, key, a.pos, held[a.node],
+				fmt.Sprintf("access to %s.%s must execute with %s.%s held on every path (Lock dominates, no explicit Unlock in between; a helper counts as locked only if every call site holds the lock)", typ, a.field, typ, mu))
 		}
 		// the lock is released on every normal exit
 		locks := b.G.Points(lockP)
 		for i, lp := range locks {
-			rel := cfgq.Or(
-				func(n ast.Node) bool { _, ok := mutexCall(info, n, typ, mu, "Unlock", true); return ok },
-				unlockP,
-			)
+			rel := cfgq.Or(deferredRelease, unlockP)
 			ok, w := b.G.MustPassToExit(lp, true, rel)
+			if deferredRelease(lp.Node()) {
+				ok, w = true, nil // `defer p.locked()()`: acquired and registered for release in one statement
+			}
 			c.Check(rule+".release", fmt.Sprintf("%s/%s#%d", b.Name, mu, i+1), lp.Node().Pos(), ok,
 				fmt.Sprintf("every path from %s.Lock() to a normal exit releases it (defer Unlock or explicit Unlock)", mu), w...)
 		}
 	}
-	return count
+	return count, seenField
 }
 
-// CondOver checks that every assignment to cond field `cond` of struct typ
-// constructs it with sync.NewCond(&<same base>.<mu>).
+// CondOver checks that every value assigned to cond field `cond` of struct typ
+// is sync.NewCond(&<same base>.<mu>) (plain, tuple or keyed-literal form does
+// not matter: the assigned expression is what is compared).
 func CondOver(c *core.Ctx, rule, pkgPath, typ, cond, mu string) {
 	pk := c.Pkg(pkgPath)
 	info := pk.TypesInfo
-	p := pat.Stmt("_b." + cond + " = sync.NewCond(&_b." + mu + ")")
 	n := 0
+	overMu := func(rhs ast.Expr, base ast.Expr) bool {
+		call, ok := ast.Unparen(rhs).(*ast.CallExpr)
+		if !ok || len(call.Args) != 1 {
+			return false
+		}
+		f := core.CalleeFunc(info, call)
+		if f == nil || f.Pkg() == nil || f.Pkg().Path() != "sync" || f.Name() != "NewCond" {
+			return false
+		}
+		u, ok := ast.Unparen(call.Args[0]).(*ast.UnaryExpr)
+		if !ok || u.Op != token.AND {
+			return false
+		}
+		sel, ok := ast.Unparen(u.X).(*ast.SelectorExpr)
+		return ok && core.IsFieldNamed(info, sel, typ, mu) && pat.Same(info, sel.X, base)
+	}
 	for _, f := range pk.Syntax {
 		ast.Inspect(f, func(m ast.Node) bool {
 			as, ok := m.(*ast.AssignStmt)
 			if !ok {
 				return true
 			}
-			for _, l := range as.Lhs {
+			for i, l := range as.Lhs {
 				if core.IsFieldNamed(info, l, typ, cond) {
 					n++
-					c.Check(rule, fmt.Sprintf("%s.%s", typ, cond), as.Pos(), p.Match(info, as, nil) != nil,
+					okv := len(as.Lhs) == len(as.Rhs) && overMu(as.Rhs[i], ast.Unparen(l).(*ast.SelectorExpr).X)
+					c.Check(rule, fmt.Sprintf("%s.%s", typ, cond), as.Pos(), okv,
 						fmt.Sprintf("condition variable %s.%s must be built over &%s.%s (Wait releases exactly the lock that guards the state)", typ, cond, typ, mu))
 				}
 			}
@@ -305,188 +696,6 @@ type ClampSpec struct {
 	Params []string // expected parameter order (names are roles, not matched by name)
 	Offset string   // role whose value modulo size is the offset, e.g. "rpos"
 	Clamps []string // patterns of the terms maxlen is lowered to, using _role metavariables and _offset
-}
-
-// ClampFunc checks a roffset/woffset-style helper against spec.
-func ClampFunc(c *core.Ctx, rule string, fn *core.Fn, spec ClampSpec) {
-	if fn == nil {
-		return
-	}
-	info := fn.Pkg.TypesInfo
-	name := fn.Name()
-	// bind roles to parameter objects by position
-	var params []*ast.Ident
-	for _, f := range fn.Decl.Type.Params.List {
-		params = append(params, f.Names...)
-	}
-	if len(params) != len(spec.Params) {
-		c.Undecidedf(rule, name+"/params", fn.Decl.Pos(), "%s has %d parameters, the rule knows %d roles %v", name, len(params), len(spec.Params), spec.Params)
-		return
-	}
-	var results []*ast.Ident
-	if fn.Decl.Type.Results != nil {
-		for _, f := range fn.Decl.Type.Results.List {
-			results = append(results, f.Names...)
-		}
-	}
-	if len(results) != 2 {
-		c.Undecidedf(rule, name+"/results", fn.Decl.Pos(), "%s must have two named results (maxlen, offset)", name)
-		return
-	}
-	binds := pat.Binds{}
-	for i, r := range spec.Params {
-		binds["_"+r] = params[i]
-	}
-	binds["_maxlen"] = results[0]
-	binds["_offset"] = results[1]
-
-	body := fn.Decl.Body.List
-	// a pure wrapper `return helper(args...)` around a same-package clamp helper: analyse
-	// the helper with its parameters replaced by the wrapper's arguments
-	subst := map[types.Object]ast.Expr{}
-	if len(body) == 1 {
-		if ret, ok := body[0].(*ast.ReturnStmt); ok && len(ret.Results) == 1 {
-			if call, ok := ast.Unparen(ret.Results[0]).(*ast.CallExpr); ok {
-				if f := core.CalleeFunc(info, call); f != nil && f.Pkg() != nil && f.Pkg().Path() == fn.Pkg.PkgPath {
-					if h := c.FnOf(f); h != nil && h.Decl.Body != nil && h.Decl.Type.Results != nil {
-						var hp, hr []*ast.Ident
-						for _, fl := range h.Decl.Type.Params.List {
-							hp = append(hp, fl.Names...)
-						}
-						for _, fl := range h.Decl.Type.Results.List {
-							hr = append(hr, fl.Names...)
-						}
-						if len(hp) == len(call.Args) && len(hr) == 2 {
-							for i, p := range hp {
-								subst[info.Defs[p]] = call.Args[i]
-							}
-							binds["_maxlen"], binds["_offset"] = hr[0], hr[1]
-							results = hr
-							body = h.Decl.Body.List
-						}
-					}
-				}
-			}
-		}
-	}
-	sub := func(e ast.Expr) ast.Expr { return substitute(info, e, subst) }
-	_ = sub
-	// classify each top-level statement
-	var clampTerms []ast.Expr
-	initOK, offOK := false, false
-	unknown := ""
-	pInit := pat.Stmt("_maxlen = uint64(_blen)")
-	pOff := pat.Stmt("_offset = _" + spec.Offset + " % _size")
-	pClampN := pat.Stmt("_maxlen = _n")
-	for _, st := range body {
-		switch s := st.(type) {
-		case *ast.AssignStmt:
-			if len(s.Lhs) == 1 && len(s.Rhs) == 1 {
-				s2 := &ast.AssignStmt{Lhs: s.Lhs, Tok: s.Tok, TokPos: s.TokPos, Rhs: []ast.Expr{sub(s.Rhs[0])}}
-				if pInit.Match(info, s2, binds) != nil {
-					initOK = true
-					continue
-				}
-				if pOff.Match(info, s2, binds) != nil {
-					offOK = true
-					continue
-				}
-			}
-			// an assignment to offset of a different form
-			if len(s.Lhs) == 1 && pat.Same(info, s.Lhs[0], results[1]) {
-				c.Failf(rule, name+"/offset", s.Pos(), "offset must be `%s %% size` (the position of this side modulo the ring size); found `%s`", spec.Offset, c.Src(s))
-				offOK = true
-				continue
-			}
-			if len(s.Lhs) == 1 && pat.Same(info, s.Lhs[0], results[0]) {
-				c.Failf(rule, name+"/init", s.Pos(), "maxlen must start at uint64(blen) and only be lowered under `n < maxlen`; found unguarded `%s`", c.Src(s))
-				initOK = true
-				continue
-			}
-			unknown = c.Src(s)
-		case *ast.IfStmt:
-			// if n := T; n < maxlen { maxlen = n }   or   if T < maxlen { maxlen = T }
-			var term ast.Expr
-			okShape := false
-			if s.Else == nil && len(s.Body.List) == 1 {
-				if as, ok := s.Init.(*ast.AssignStmt); ok && len(as.Lhs) == 1 && len(as.Rhs) == 1 {
-					b2 := pat.Binds{"_n": as.Lhs[0]}
-					for k, v := range binds {
-						b2[k] = v
-					}
-					if pat.Expr("_n < _maxlen").Match(info, s.Cond, b2) != nil && pClampN.Match(info, s.Body.List[0], b2) != nil {
-						term, okShape = sub(as.Rhs[0]), true
-					} else if pClampN.Match(info, s.Body.List[0], b2) != nil {
-						c.Failf(rule, name+"/clamp-guard", s.Pos(), "maxlen may only be lowered: the guard must be `n < maxlen`; found `%s`", c.Src(s.Cond))
-						term, okShape = sub(as.Rhs[0]), true
-					}
-				} else if s.Init == nil {
-					if be, ok := ast.Unparen(s.Cond).(*ast.BinaryExpr); ok {
-						for _, cand := range []ast.Expr{be.X, be.Y} {
-							b2 := pat.Binds{"_n": cand}
-							for k, v := range binds {
-								b2[k] = v
-							}
-							if pat.Same(info, cand, results[0]) {
-								continue
-							}
-							if pClampN.Match(info, s.Body.List[0], b2) != nil {
-								if pat.Expr("_n < _maxlen").Match(info, s.Cond, b2) == nil {
-									c.Failf(rule, name+"/clamp-guard", s.Pos(), "maxlen may only be lowered: the guard must be `n < maxlen`; found `%s`", c.Src(s.Cond))
-								}
-								term, okShape = sub(cand), true
-							}
-						}
-					}
-				}
-			}
-			if !okShape {
-				unknown = c.Src(s)
-				continue
-			}
-			clampTerms = append(clampTerms, term)
-		case *ast.ReturnStmt:
-			if len(s.Results) != 0 && !(len(s.Results) == 2 && pat.Same(info, s.Results[0], results[0]) && pat.Same(info, s.Results[1], results[1])) {
-				unknown = c.Src(s)
-			}
-		default:
-			unknown = c.Src(st)
-		}
-	}
-	if unknown != "" {
-		c.Undecidedf(rule, name+"/shape", fn.Decl.Pos(), "%s contains a statement outside the clamp idiom: %s", name, unknown)
-		return
-	}
-	c.Check(rule, name+"/init", fn.Decl.Pos(), initOK, "maxlen starts at uint64(blen): never more than the caller's buffer")
-	c.Check(rule, name+"/offset", fn.Decl.Pos(), offOK, fmt.Sprintf("offset is %s %% size", spec.Offset))
-	// compare clamp term sets
-	used := make([]bool, len(clampTerms))
-	for _, want := range spec.Clamps {
-		p := pat.Expr(want)
-		found := false
-		for i, t := range clampTerms {
-			if !used[i] && p.Match(info, t, binds) != nil {
-				used[i], found = true, true
-				break
-			}
-		}
-		c.Check(rule, name+"/clamp:"+strings.ReplaceAll(want, "_", ""), fn.Decl.Pos(), found,
-			fmt.Sprintf("maxlen must be lowered to `%s`; terms found: %s", strings.ReplaceAll(want, "_", ""), exprList(c, clampTerms)))
-	}
-	for i, t := range clampTerms {
-		if !used[i] {
-			c.Failf(rule, name+"/clamp-extra", t.Pos(), "maxlen is lowered to `%s`, which is not one of the ring bounds %v (reads/writes would be cut short or mis-sized)", c.Src(t), spec.Clamps)
-		}
-	}
-}
-
-func exprList(c *core.Ctx, es []ast.Expr) string {
-	var s []string
-	for _, e := range es {
-		s = append(s, "`"+c.Src(e)+"`")
-	}
-	sort.Strings(s)
-	return strings.Join(s, ", ")
 }
 
 // ImplementersOf returns the named struct types of pkg whose pointer
@@ -594,34 +803,149 @@ func CondOps(c *core.Ctx, info *types.Info, n ast.Node, methods ...string) []str
 	return out
 }
 
-// substitute returns a copy of e in which identifiers denoting the objects in
-// m are replaced by the mapped expressions (parameter binding of a wrapper).
-func substitute(info *types.Info, e ast.Expr, m map[types.Object]ast.Expr) ast.Expr {
-	if len(m) == 0 || e == nil {
-		return e
+// lockPreds builds the node predicates "acquires <typ>.<mu>", "releases it
+// explicitly" and "registers its release for function exit". A declared
+// function of the package whose every path locks the mutex and that never
+// unlocks it is an acquire wrapper (`defer p.locked()()`, `p.lock()`); one
+// that only unlocks is a release wrapper.
+func lockPreds(c *core.Ctx, pkgPath, typ, mu string) (lock, unlock, deferredRelease func(ast.Node) bool) {
+	pk := c.Pkg(pkgPath)
+	info := pk.TypesInfo
+	direct := func(method string, deferred bool) func(ast.Node) bool {
+		return func(n ast.Node) bool { _, ok := mutexCall(info, n, typ, mu, method, deferred); return ok }
 	}
-	switch x := e.(type) {
-	case *ast.Ident:
-		if r, ok := m[info.Uses[x]]; ok {
-			return &ast.ParenExpr{X: r}
+	acquire, release := map[*types.Func]bool{}, map[*types.Func]bool{}
+	for _, b := range Bodies(c, pkgPath) {
+		if b.Lit != nil {
+			continue
 		}
-		return x
-	case *ast.ParenExpr:
-		return &ast.ParenExpr{X: substitute(info, x.X, m)}
-	case *ast.BinaryExpr:
-		return &ast.BinaryExpr{X: substitute(info, x.X, m), Op: x.Op, OpPos: x.OpPos, Y: substitute(info, x.Y, m)}
-	case *ast.UnaryExpr:
-		return &ast.UnaryExpr{Op: x.Op, OpPos: x.OpPos, X: substitute(info, x.X, m)}
-	case *ast.CallExpr:
-		args := make([]ast.Expr, len(x.Args))
-		for i, a := range x.Args {
-			args[i] = substitute(info, a, m)
+		fo, _ := info.Defs[b.Decl.Name].(*types.Func)
+		if fo == nil {
+			continue
 		}
-		return &ast.CallExpr{Fun: x.Fun, Lparen: x.Lparen, Args: args, Ellipsis: x.Ellipsis, Rparen: x.Rparen}
-	case *ast.SelectorExpr:
-		return &ast.SelectorExpr{X: substitute(info, x.X, m), Sel: x.Sel}
-	case *ast.IndexExpr:
-		return &ast.IndexExpr{X: substitute(info, x.X, m), Index: substitute(info, x.Index, m)}
+		locks := b.G.Points(direct("Lock", false))
+		unlocks := append(b.G.Points(direct("Unlock", false)), b.G.Points(direct("Unlock", true))...)
+		switch {
+		case len(locks) > 0 && len(unlocks) == 0:
+			if ok, _ := b.G.MustPassToExit(b.G.Entry(), false, direct("Lock", false)); ok {
+				acquire[fo] = true
+			}
+		case len(locks) == 0 && len(unlocks) > 0 && len(b.G.Points(direct("Unlock", true))) == 0:
+			if ok, _ := b.G.MustPassToExit(b.G.Entry(), false, direct("Unlock", false)); ok {
+				release[fo] = true
+			}
+		}
 	}
-	return e
+	calls := func(n ast.Node, set map[*types.Func]bool) bool {
+		if len(set) == 0 {
+			return false
+		}
+		for _, call := range cfgq.ExecCalls(n) {
+			if f := core.CalleeFunc(info, call); f != nil && set[f.Origin()] {
+				return true
+			}
+		}
+		return false
+	}
+	lock = func(n ast.Node) bool { return direct("Lock", false)(n) || calls(n, acquire) }
+	unlock = func(n ast.Node) bool {
+		if _, isD := n.(*ast.DeferStmt); isD {
+			return false
+		}
+		return direct("Unlock", false)(n) || calls(n, release)
+	}
+	deferredRelease = func(n ast.Node) bool {
+		d, ok := n.(*ast.DeferStmt)
+		if !ok {
+			return false
+		}
+		if direct("Unlock", true)(n) {
+			return true
+		}
+		if f := core.CalleeFunc(info, d.Call); f != nil && release[f.Origin()] {
+			return true
+		}
+		// defer p.locked()(): the function value returned by an acquire wrapper is its release
+		if inner, ok := ast.Unparen(d.Call.Fun).(*ast.CallExpr); ok {
+			if f := core.CalleeFunc(info, inner); f != nil && acquire[f.Origin()] {
+				return true
+			}
+		}
+		return false
+	}
+	return
+}
+
+// deferredUnderLock: the deferred call registered by node n runs with the lock
+// held: a deferred release registered before n on every path (it runs after
+// the call), and no explicit release anywhere in the body.
+func deferredUnderLock(g *cfgq.Graph, n ast.Node, unlock, deferredRelease func(ast.Node) bool) bool {
+	if len(g.Points(unlock)) > 0 {
+		return false
+	}
+	pt, ok := g.Find(n)
+	if !ok {
+		return false
+	}
+	dom, _ := g.Dominated(pt, deferredRelease)
+	return dom
+}
+
+// heldFrom is cfgq.HeldFrom with defer statements taken into account for what
+// they execute immediately (the operands of the deferred call, e.g. the
+// acquire wrapper in `defer p.locked()()`).
+func heldFrom(g *cfgq.Graph, entry bool, lock, unlock func(ast.Node) bool) map[ast.Node]bool {
+	in := map[*cfg.Block]bool{}
+	out := map[*cfg.Block]bool{}
+	for _, b := range g.CFG.Blocks {
+		in[b], out[b] = true, true
+	}
+	preds := map[*cfg.Block][]*cfg.Block{}
+	for _, b := range g.CFG.Blocks {
+		for _, s := range b.Succs {
+			preds[s] = append(preds[s], b)
+		}
+	}
+	transfer := func(b *cfg.Block, v bool, rec map[ast.Node]bool) bool {
+		for _, n := range b.Nodes {
+			if rec != nil {
+				rec[n] = v
+			}
+			if lock(n) {
+				v = true
+			} else if unlock(n) {
+				v = false
+			}
+		}
+		return v
+	}
+	for changed := true; changed; {
+		changed = false
+		for i, b := range g.CFG.Blocks {
+			if !b.Live {
+				continue
+			}
+			v := true
+			if i == 0 {
+				v = entry
+			}
+			for _, p := range preds[b] {
+				if p.Live && !out[p] {
+					v = false
+				}
+			}
+			o := transfer(b, v, nil)
+			if v != in[b] || o != out[b] {
+				in[b], out[b] = v, o
+				changed = true
+			}
+		}
+	}
+	res := map[ast.Node]bool{}
+	for _, b := range g.CFG.Blocks {
+		if b.Live {
+			transfer(b, in[b], res)
+		}
+	}
+	return res
 }
